@@ -184,6 +184,19 @@ Definition end_check (bt : btype) (k : rkind) : endres :=
 
 Variable rows : list srow.
 
+(* for entry in iterlist: go_to_bookmark, add_to_context, parse the body
+   ([body] = _parse_block(depth + 1, "for") of the enclosing call, started at the bookmark) *)
+Fixpoint loop_iter (body : ctx -> list event -> list event * result terr (nat * ctx)) (var : str)
+         (es : list value) (p : nat) (c : ctx) (lg : list event) : list event * result terr (nat * ctx) :=
+  match es with
+  | [] => (lg, Ok (p, c))
+  | en :: rest =>
+    match body (ctx_set c var en) lg with
+    | (lg', Err e) => (lg', Err e)
+    | (lg', Ok (p', c')) => loop_iter body var rest p' c' lg'
+    end
+  end.
+
 Fixpoint parse_block (fuel : nat) (bt : btype) (omit : bool) (pos : nat) (cx : ctx) (log : list event)
   {struct fuel} : list event * result terr (nat * ctx) :=
   match fuel with
@@ -220,16 +233,7 @@ Fixpoint parse_block (fuel : nat) (bt : btype) (omit : bool) (pos : nat) (cx : c
               | [], _ => (log2, Err EBlock)
               | _, MText _ => (log2, Err EUnsupported)
               | _, MEntries es =>
-                match (fix iter (es : list value) (p : nat) (c : ctx) (lg : list event)
-                         : list event * result terr (nat * ctx) :=
-                         match es with
-                         | [] => (lg, Ok (p, c))
-                         | en :: rest =>
-                           match parse_block f BFor false (S pos) (ctx_set c var en) lg with
-                           | (lg', Err e) => (lg', Err e)
-                           | (lg', Ok (p', c')) => iter rest p' c' lg'
-                           end
-                         end) es (S pos) cx log2 with
+                match loop_iter (fun c lg => parse_block f BFor false (S pos) c lg) var es (S pos) cx log2 with
                 | (log3, Err e) => (log3, Err e)
                 | (log3, Ok (p, c3)) =>
                   (* nothing to iterate over: the body is read with omit_content (repaired code) *)
